@@ -981,7 +981,9 @@ func (ex *Exec) applyContract(st *State, c *ssa.Call, con0 *Contract, bindings [
 		}
 	}
 	if len(locsets) > 0 {
-		var cs []Term
+		fname := fmt.Sprintf("frame/%s", tag)
+		fdesc := "callee " + con0.Name + " writes only memory this function may write"
+		any := false
 		for _, ls := range locsets {
 			ft := frameTarget{Fam: ls.Fam, Obj: ls.Obj}
 			if ls.Ghost {
@@ -994,7 +996,8 @@ func (ex *Exec) applyContract(st *State, c *ssa.Call, con0 *Contract, bindings [
 						ok = true
 					}
 				}
-				cs = append(cs, boolLit(ok))
+				st.checkPart(fname, "frame", boolLit(ok), fdesc, nil, pos, ls.Fam)
+				any = true
 				continue
 			}
 			if ls.Ranged {
@@ -1006,16 +1009,20 @@ func (ex *Exec) applyContract(st *State, c *ssa.Call, con0 *Contract, bindings [
 				ov := Term{"o!own", SInt}
 				ft.Obj = ov
 				ac := ex.assignableCond(st, ft)
-				cs = append(cs, Term{fmt.Sprintf("(forall ((o!own Int)) (! (=> %s %s) :pattern (%s)))", ls.member(ov).S, ac.S, ls.member(ov).S), SBool})
+				st.checkPart(fname, "frame", Term{fmt.Sprintf("(forall ((o!own Int)) (! (=> %s %s) :pattern (%s)))", ls.member(ov).S, ac.S, ls.member(ov).S), SBool}, fdesc, nil, pos, ls.Fam)
+				any = true
 				continue
 			}
 			ac := ex.assignableCond(st, ft)
 			if ls.Guard != nil {
 				ac = implies(*ls.Guard, ac)
 			}
-			cs = append(cs, ac)
+			st.checkPart(fname, "frame", ac, fdesc, nil, pos, ls.Fam)
+			any = true
 		}
-		st.check(fmt.Sprintf("frame/%s", tag), "frame", and(cs...), "callee "+con0.Name+" writes only memory this function may write", nil, pos)
+		if !any {
+			st.check(fname, "frame", tTrue, fdesc, nil, pos)
+		}
 		byFam := map[string][]LocSet{}
 		var order []string
 		for _, ls := range locsets {
